@@ -23,7 +23,7 @@ ASSUMPTIONS = [
     "C19_size_bound assumes every single record (8 + block length) is at most the limit and no existing file exceeds it",
     "blocks shorter than 4 GiB (len(blk).to_bytes(4, 'little') does not overflow)",
     "file-system model: open(name, 'ab') creates/positions at end, write appends, tell() = size; torn writes inside one "
-    "write(), buffering/fsync and directory-entry durability are below the model (the harness opens files unbuffered)",
+    "write(), buffering/fsync and directory-entry durability are below the model (crash-injection runs open files unbuffered; all other runs use the real buffered file objects)",
     "the implementation is run with MAX_BLOCKFILE_SIZE scaled to 100..300 bytes (the value 0x8000000 itself is tied to "
     "the reference by GenProps/P2pGen.v)",
     "modelled, not verified: src/bits/p2p.py (write_blocks_to_disk)",
@@ -93,7 +93,11 @@ def run_history(max_size, magic, files, batches, crash_k):
     def wrapped_open(path, mode="r", *a, **kw):
         if isinstance(path, str) and path.startswith(scratch):
             crasher.tick()
-            f = _File(crasher, real_open(path, mode, buffering=0))    # unbuffered: a write is on disk at once
+            if crash_k is None:
+                # no crash requested: the library sees the REAL file object with Python's default buffering, so that
+                # code depending on what is already flushed to disk (os.path.getsize, re-reading) behaves as in production
+                return real_open(path, mode, *a, **kw)
+            f = _File(crasher, real_open(path, mode, buffering=0))    # crash runs: a write is on disk at once
             crasher.live.append(f)
             return f
         return real_open(path, mode, *a, **kw)
